@@ -71,6 +71,8 @@ def write_term(t):
         s = t['key']
     elif t['form'] == 'plain':
         s = '%d %s' % (t['n'], t['key'])
+    elif t['form'] == 'dec':
+        s = '%d.%s %s' % (t['n'], t['frac'], t['key'])
     else:
         s = '%d * %s' % (t['n'], t['key'])
     return '(' + s + ')' if t['inact'] else s
@@ -119,15 +121,51 @@ def admissible(key, token, t=None):
     return True
 
 
+def term_value(t):
+    """exact value of the written coefficient"""
+    return Fraction('%d.%s' % (t['n'], t['frac'])) if t['form'] == 'dec' else Fraction(t['n'])
+
+
 def expected(a):
+    """-> (dicts key -> exact total, dicts key -> written with a decimal?, keys, net effect?, all totals integral?)"""
     exp = {'reac': {}, 'prod': {}, 'inact_reac': {}, 'inact_prod': {}}
+    isf = {'reac': {}, 'prod': {}, 'inact_reac': {}, 'inact_prod': {}}
     for side in ('reac', 'prod'):
         for t in a[side]:
-            d = exp[('inact_' if t['inact'] else '') + side]
-            d[t['key']] = d.get(t['key'], 0) + t['n']
+            nm = ('inact_' if t['inact'] else '') + side
+            exp[nm][t['key']] = exp[nm].get(t['key'], 0) + term_value(t)
+            isf[nm][t['key']] = isf[nm].get(t['key'], False) or t['form'] == 'dec'
     keys = set().union(*[set(d) for d in exp.values()])
     effect = any(exp['prod'].get(k, 0) + exp['inact_prod'].get(k, 0) - exp['reac'].get(k, 0) - exp['inact_reac'].get(k, 0) != 0 for k in keys)
-    return exp, keys, effect
+    integral = all(Fraction(v).denominator == 1 for d in exp.values() for v in d.values())
+    return exp, isf, keys, effect, integral
+
+
+NUM_TOKEN = re.compile(r'[^\s+()*;=>-]+')
+
+
+def unmodelled_justified(text):
+    """does the text contain a coefficient-like token outside the modelled grammar of int()/float()?
+    (non-ASCII characters; inf/nan spellings; floats with more than 15 mantissa digits or a magnitude outside [1e-300, 1e300))"""
+    if any(ord(ch) >= 128 for ch in text):
+        return True
+    for tok in re.split(r'[\s;]+', text):
+        t = tok.strip('()').lstrip('+-')
+        if t.lower() in ('inf', 'infinity', 'nan'):
+            return True
+        if '.' in t or 'e' in t or 'E' in t:
+            try:
+                v = float(t)
+            except ValueError:
+                continue
+            mant = re.split('[eE]', t.replace('_', ''))[0]
+            if len(mant.replace('.', '')) > 15:
+                return True
+            if v != v or v in (float('inf'), float('-inf')) or abs(v) >= 1e300 or (0 < abs(v) < 1e-300):
+                return True
+            if v == 0 and any(ch in '123456789' for ch in mant):
+                return True
+    return False
 
 
 class C12(Property):
@@ -143,11 +181,37 @@ class C12(Property):
             'keyword parts, allowed-key lists) written to text and parsed by the real Reaction/Equilibrium.from_string; Reaction objects printed and re-parsed; '
             'multi-line systems with comments and blank lines; malformed lines (missing/duplicated arrow, too many parts, bad numbers, character mutations); '
             'the string primitives on separator-rich random strings. Non-trivial = distinct JSON value with at least one species.')
-    assumptions = ('eval of the parameter text and of "; key=value" parts is not modelled (the model keeps the text; compared numerically through float())',
-                   'coefficient tokens: ASCII only, decimal floats with <= 15 digits and magnitude in [1e-6, 1e15); outside this the model answers Unmodelled and the case is skipped',
+    clauses_without_theorem = (
+        '"parameters to the printed precision": the theorems hand the parser exactly the printed parameter TEXT; that a %.3g text denotes the value '
+        'rounded to 3 significant digits is C20\'s theorem, the composition (eval of the text) is checked by the oracle only '
+        '(from_string(r.string(with_param=True)).param == float("%.3g" % p), parameters over 30 decades)',
+        '"; keyword=value" parts: theorems show they do not disturb the stoichiometry/parameter and are handed on verbatim; their evaluation (eval) is oracle-only (name read back)',
+        '"a copy compares equal to its original": the modelled copy is the identity on the (already ordered) dictionaries, so the statement is reflexivity '
+        '(lemma copy_eq in Proofs); the real shallow copy / checks=() path is exercised by the oracle only (r.copy() == r, same class); NaN parameters violate it (finding 7)',
+        'decimal coefficients: theorem for texts "n.ddd" with n >= 1 and at most 15 digits (exact value); exponent forms (1e2), leading-dot forms, signs, '
+        'underscores and the float rounding of sums of non-dyadic decimals are correspondence-only',
+        'keys that contain the arrow token (e.g. C=O in an equilibrium line) or ";" are excluded from parse_written (witness: token_in_key_missplit_witness); '
+        'named reactions / named systems do not round-trip (witnesses); both are outside the theorems\' hypotheses',
+        'system round trip: theorem covers unnamed systems of reactions with sorted int dictionaries; ReactionSystem-level checks (balance, substance_keys, duplicates), '
+        'substance construction (substance_factory) and ReactionSystem.__eq__ on substances are oracle-only',
+        'the sorted key order of the parsed dictionaries is stated only through the round-trip theorems; for arbitrary written lines it is checked by the oracle',
+    )
+    _base_assumptions = ('eval of the parameter text and of "; key=value" parts is not modelled (the model keeps the text; compared numerically through float())',
+                   'coefficient tokens: ASCII only, decimal floats with <= 15 mantissa digits and magnitude in [1e-300, 1e300); outside this the model answers Unmodelled; '
+                   'such an answer is accepted only when the harness finds such a token in the text (unmodelled_justified), it is counted below, and more than 1 % of them is a failure',
+                   'float rounding of sums of decimal coefficients is not modelled (the generator sums only dyadic decimals: .0 .5 .25 .75 .125)',
                    'parameters carrying units and quoted \'k\' parameters are outside the model',
                    'the order in which the default checks of Reaction.__init__ run is a set order: only the exception class is compared for them',
                    'the %.3g text of a float parameter is produced by Python\'s % operator in the harness (C20 models it)')
+    @property
+    def assumptions(self):
+        return self._base_assumptions + (
+            'Unmodelled model answers in this run: %d of %d compared (by op: %s); every one justified by a token outside the modelled number grammar'
+            % (sum(self._unmodelled.values()), self._compared, dict(self._unmodelled)),)
+
+    _unmodelled = {}
+    _compared = 0
+
     anchors = (('chempy/util/parsing.py', '_parse_multiplicity'), ('chempy/util/parsing.py', '_is_inactive_term'),
                ('chempy/util/parsing.py', 'to_reaction'), ('chempy/chemistry.py', 'Reaction._init_stoich'),
                ('chempy/chemistry.py', 'Reaction.__init__'), ('chempy/chemistry.py', 'Reaction.from_string'),
@@ -155,7 +219,7 @@ class C12(Property):
                ('chempy/chemistry.py', 'Reaction.check_any_effect'), ('chempy/chemistry.py', 'Reaction.check_all_positive'),
                ('chempy/chemistry.py', 'Reaction.check_all_integral'), ('chempy/chemistry.py', 'Reaction.net_stoich'),
                ('chempy/chemistry.py', 'Reaction.keys'),
-               ('chempy/reactionsystem.py', 'ReactionSystem.from_string'),
+               ('chempy/reactionsystem.py', 'ReactionSystem.from_string'), ('chempy/equilibria.py', 'EqSystem'),
                ('chempy/printing/string.py', 'StrPrinter'), ('chempy/printing/printer.py', 'Printer'))
 
     # ------------------------------------------------------------------ generation
@@ -185,11 +249,18 @@ class C12(Property):
             n = self._coef(rng)
             form = rng.choice(['omit', 'plain', 'plain', 'star']) if n == 1 else rng.choice(['plain', 'plain', 'plain', 'star'])
             t = {'key': key, 'n': n, 'form': form, 'inact': inact_ok and rng.random() < 0.12}
+            if self._decimals and rng.random() < 0.45:
+                t['form'] = 'dec'
+                t['n'] = rng.choice([1, 1, 2, 3, 10, 12, rng.randint(1, 1000)])
+                t['frac'] = rng.choice(['0', '0', '5', '5', '00', '50', '25', '75', '125', '000', '500'])
             if admissible(key, token, t):
                 return t
         return {'key': 'H2O', 'n': 1, 'form': 'omit', 'inact': False}
 
+    _decimals = False
+
     def _ast(self, rng, tier, inact_ok=True):
+        self._decimals = rng.random() < 0.2          # one reaction in five is written with decimal coefficients
         token = '->' if rng.random() < 0.6 else '='
         npool = rng.randint(1, 7)
         pool = [self._key(rng, tier) for _ in range(npool)]
@@ -223,7 +294,7 @@ class C12(Property):
                 a['kw'] = rng.choice(["name='r%d'" % rng.randint(0, 99), "ref='doi:10/x'", "name='a b', ref=3"])
         a['lead'] = rng.choice(['', '', '', ' ', '  ', '\t'])
         a['trail'] = rng.choice(['', '', '', '\n', ' ', ' \n', '\n\n'])
-        exp, keys, effect = expected(a)
+        exp, isf, keys, effect, integral = expected(a)
         r = rng.random()
         allowed = None
         if r < 0.12 and keys:
@@ -290,7 +361,7 @@ class C12(Property):
             a = self._ast(rng, tier)
             token = a['token']
             s = write_line(a)
-            allowed = rng.choice([rng.choice(sorted(expected(a)[1]) or ['A']), 'H2O', 'AB', '', 'A B', ' A', 'A '])   # str forms
+            allowed = rng.choice([rng.choice(sorted(expected(a)[2]) or ['A']), 'H2O', 'AB', '', 'A B', ' A', 'A '])   # str forms
         return {'kind': 'raw', 'op': 'parse', 'line': s, 'token': token, 'allowed': allowed, 'eval': False}
 
     def _rxn_obj(self, rng, tier, inact_ok=False, floats=False):
@@ -333,22 +404,31 @@ class C12(Property):
         o.update({'kind': 'roundtrip', 'op': 'roundtrip'})
         return o
 
+    COMMENT_SETS = [None, None, None, ['#'], ['//'], ['#', '%%'], ['%'], ['//', '#'], ['rem'], ['--', ';;'], ['#', '//', '!']]
+
     def _system_case(self, rng, tier):
         token = '->' if rng.random() < 0.7 else '='
+        cts = rng.choice(self.COMMENT_SETS)
+        toks = cts if cts is not None else ['#']
         lines, asts = [], []
-        for _ in range(rng.randint(0, 6)):
+        foreign = False
+        for _ in range(rng.randint(0, 7)):
             r = rng.random()
             if r < 0.2:
                 lines.append(rng.choice(['', ' ', '\t', '   ']))
-            elif r < 0.4:
-                lines.append(rng.choice(['', ' ', '\t']) + '#' + rng.choice(['', ' comment', ' A -> B', '#', ' 2 H2O = x; 3']))
+            elif r < 0.45:
+                ct = rng.choice(toks)
+                if rng.random() < 0.08:
+                    ct = rng.choice(['#', '//', '%%', '%', 'rem', '!'])         # maybe a token that is NOT a comment here
+                    foreign = foreign or not any(ct.startswith(x) for x in toks)
+                lines.append(rng.choice(['', '', ' ', '\t', '    ']) + ct + rng.choice(['', ' comment', ' A -> B', ct, ' 2 H2O = x; 3', 'x']))
             else:
                 for _ in range(20):
                     a = self._ast(rng, tier)
                     a['token'] = token
-                    ok = all(admissible(t['key'], token, t) and not t['key'].startswith('#') for t in a['reac'] + a['prod'])
-                    first = (a['reac'] + [None])[0]
-                    if ok and expected(a)[2]:
+                    ok = all(admissible(t['key'], token, t) for t in a['reac'] + a['prod'])
+                    e = expected(a)
+                    if ok and e[3] and e[4] and not any(write_line(a).strip().startswith(x) for x in toks):
                         break
                 else:
                     continue
@@ -358,10 +438,14 @@ class C12(Property):
                 asts.append(a)
                 lines.append(write_line(a))
         text = '\n'.join(lines) + rng.choice(['', '\n', '\n\n'])
+        if foreign:
+            asts = None
         if rng.random() < 0.1:
             text = self._mutate(rng, text)
             asts = None
-        return {'kind': 'system', 'op': 'system_parse', 'text': text, 'token': token, 'allowed': None, 'asts': asts}
+        return {'kind': 'system', 'op': 'system_parse', 'text': text, 'token': token, 'allowed': None, 'asts': asts,
+                'comment_tokens': cts, 'eqsystem': token == '=' and rng.random() < 0.6,
+                'opt': rng.choice(['checks', 'checks', 'dont_check', 'factory_default'])}
 
     def _system_rt_case(self, rng, tier):
         token = '->' if rng.random() < 0.7 else '='
@@ -440,7 +524,8 @@ class C12(Property):
             m.update({'op': 'roundtrip', 'arrow': c['arrow']})
             return m
         if k == 'system':
-            return {'op': 'system_parse', 'text': c['text'], 'token': c['token'], 'allowed': None}
+            return {'op': 'system_parse', 'text': c['text'], 'token': c['token'], 'allowed': None,
+                    'comment_tokens': c.get('comment_tokens'), 'eqsystem': c.get('eqsystem', False), 'opt': c.get('opt', 'checks')}
         if k == 'system_rt':
             return {'op': 'system_print', 'arrow': c['arrow'], 'rxns': [dict(self._mobj(o), pval=o.get('pval')) for o in c['rxns']],
                     'with_param': True, 'with_name': True, 'name': c.get('name')}
@@ -462,6 +547,28 @@ class C12(Property):
         kw = {} if checks is None else {'checks': checks}
         return self._cls(arrow or o['arrow'])(d(o['reac']), d(o['prod']), o.get('pval'), inact_reac=d(o['inact_reac']),
                                               inact_prod=d(o['inact_prod']), name=o.get('name'), **kw)
+
+    def _system_real(self, c, globals_):
+        """ReactionSystem.from_string / EqSystem.from_string with the optional arguments of the case"""
+        from chempy import ReactionSystem, Substance
+        if c.get('eqsystem'):
+            from chempy.equilibria import EqSystem
+            cls = EqSystem
+        else:
+            cls = type('RS', (ReactionSystem,), {'_BaseReaction': self._cls(c['token'])})
+        kw = {'substance_factory': Substance}
+        opt = c.get('opt', 'checks')
+        if opt == 'dont_check':
+            kw['dont_check'] = {'balance', 'substance_keys', 'duplicate', 'duplicate_names'}
+        elif opt == 'factory_default':
+            kw['substance_factory'] = lambda k: Substance(k)
+            kw['checks'] = ()
+            kw['sort_substances'] = False
+        else:
+            kw['checks'] = ()
+        if c.get('comment_tokens') is not None:
+            kw['comment_tokens'] = tuple(c['comment_tokens'])
+        return cls.from_string(c['text'], None, rxn_parse_kwargs={'globals_': globals_}, **kw)
 
     def impl(self, c):
         import chempy
@@ -505,10 +612,8 @@ class C12(Property):
                 r = self._build(c, checks=())
                 return str(r.copy() == r)
             if op == 'system_parse':
-                from chempy import ReactionSystem, Substance
                 try:
-                    cls = type('RS', (ReactionSystem,), {'_BaseReaction': self._cls(c['token'])})
-                    rs = cls.from_string(c['text'], None, rxn_parse_kwargs={'globals_': False}, substance_factory=Substance, checks=())
+                    rs = self._system_real(c, False)
                 except Exception as e:
                     return err_tag(e)
                 return 'ok ' + ' ; '.join(show_rxn(r) for r in rs.rxns)
@@ -526,8 +631,17 @@ class C12(Property):
     _PARAM = re.compile(r'^(.*) ("(?:[^"]*)"|-|=\S+)$')
 
     def same(self, c, io, mo):
+        self._compared += 1
         if mo == 'Unmodelled':
-            return True            # outside the modelled grammar of numeric tokens (counted by classify of the evidence)
+            # outside the modelled grammar of numeric tokens: accepted only when such a token is really there, counted, and rare
+            text = c.get('line', c.get('text', '')) if c['op'] in ('parse', 'system_parse') else ' '.join(c.get('strings', []))
+            if c['op'] in ('print', 'roundtrip', 'system_print'):
+                justified = any(fl and (v != int(v) or abs(v) >= 10 ** 16) for o in ([c] + c.get('rxns', []))
+                                for side in ('reac', 'prod', 'inact_reac', 'inact_prod') for _, v, fl in o.get(side, []))
+            else:
+                justified = unmodelled_justified(text)
+            self._unmodelled[c['op']] = self._unmodelled.get(c['op'], 0) + 1
+            return justified and sum(self._unmodelled.values()) <= max(25, self._compared // 100)
         if io == mo:
             return True
         if c['op'] in ('parse', 'system_parse') and io in ('SyntaxError', 'NameError', 'TypeError') \
@@ -550,6 +664,8 @@ class C12(Property):
                     if c.get('eval') and vm not in ('-', '"None"'):
                         return False
                     continue
+                if vi.startswith('=MassAction(') and vm.startswith('"\'') and vm.endswith('\'"'):
+                    continue        # the quoted 'k' parameter form (a Symbol rate constant) is outside the model: the text agrees
                 if vi.startswith('=') and vm.startswith('"'):
                     try:
                         if float(vi[1:]) != float(vm[1:-1]):
@@ -578,13 +694,15 @@ class C12(Property):
 
     # ------------------------------------------------------------------ the property on the real code
     def _check_parsed(self, r, a, where):
-        exp, keys, effect = expected(a)
+        exp, isf, keys, effect, integral = expected(a)
         for attr in ('reac', 'prod', 'inact_reac', 'inact_prod'):
             got = getattr(r, attr)
-            if dict(got) != exp[attr]:
-                return '%s: %s of %r is %r, written: %r' % (where, attr, write_line(a), dict(got), exp[attr])
-            if any(type(v) is not int for v in got.values()):
-                return '%s: non-int coefficient in %s of %r' % (where, attr, write_line(a))
+            if set(got) != set(exp[attr]) or any(Fraction(got[k]) != exp[attr][k] for k in got):
+                return '%s: %s of %r is %r, written: %r' % (where, attr, write_line(a), dict(got),
+                                                            {k: str(v) for k, v in exp[attr].items()})
+            for k, v in got.items():
+                if (type(v) is float) != isf[attr][k] or type(v) not in (int, float):
+                    return '%s: coefficient of %s in %s of %r has type %s' % (where, k, attr, write_line(a), type(v).__name__)
             if list(got) != sorted(got):
                 return '%s: %s keys not sorted: %r' % (where, attr, list(got))
         return None
@@ -593,7 +711,7 @@ class C12(Property):
         k = c.get('kind')
         if k == 'written':
             a = c['ast']
-            exp, keys, effect = expected(a)
+            exp, isf, keys, effect, integral = expected(a)
             allowed = c['allowed']
             al = allowed.split() if isinstance(allowed, str) else allowed
             unknown = al is not None and any(kk not in al for kk in keys)
@@ -604,6 +722,9 @@ class C12(Property):
                     return None
                 if not effect and not unknown and str(e).startswith('The net stoichiometry'):
                     return None
+                if not integral and not unknown and (str(e).startswith('Found a non-integer') or
+                                                     (not effect and str(e).startswith('The net stoichiometry'))):
+                    return None
                 return 'parsing %r (allowed=%r) raised ValueError: %s' % (c['line'], allowed, e)
             except Exception as e:
                 return 'parsing %r raised %s: %s' % (c['line'], exc_name(e), e)
@@ -611,6 +732,8 @@ class C12(Property):
                 return 'unknown key accepted: %r with allowed %r' % (c['line'], allowed)
             if not effect:
                 return 'reaction without net effect accepted: %r' % c['line']
+            if not integral:
+                return 'reaction with a non-integral total coefficient accepted: %r' % c['line']
             f = self._check_parsed(r, a, 'from_string')
             if f:
                 return f
@@ -657,10 +780,8 @@ class C12(Property):
                 return 'copy changed the class'
             return None
         if k == 'system' and c.get('asts') is not None:
-            from chempy import ReactionSystem, Substance
-            cls = type('RS', (ReactionSystem,), {'_BaseReaction': self._cls(c['token'])})
             try:
-                rs = cls.from_string(c['text'], None, rxn_parse_kwargs={'globals_': {}}, substance_factory=Substance, checks=())
+                rs = self._system_real(c, {})
             except Exception as e:
                 return 'system text %r raised %s: %s' % (c['text'], exc_name(e), e)
             if len(rs.rxns) != len(c['asts']):
